@@ -5,6 +5,7 @@ import MV.Driver.Discrete
 import MV.Driver.Hist
 import MV.Driver.Sample
 import MV.Driver.Scale
+import MV.Driver.QCI
 open MV
 
 /-- ops whose handler models panics itself -/
@@ -19,6 +20,8 @@ def dispatchOp (ins outs : List J) : Verdict :=
   | .atom "lh" :: rest => Hist.handleLin rest outs
   | .atom "smp" :: rest => Sample.handle rest outs
   | .atom "sc" :: rest => Scale.handleScale rest outs
+  | .atom "qci" :: rest => QCI.handleQCI rest outs
+  | .atom "sci" :: rest => QCI.handleSCI rest outs
   | .atom "findlevel" :: rest => Scale.handleFindLevel rest outs
   | .atom "lticks" :: rest => Scale.handleLinTicks rest outs
   | .atom "lnice" :: rest => Scale.handleLinNice rest outs
